@@ -99,6 +99,16 @@ Theorem C19_accepted_components_are_tarjan :
 Proof. exact scc_ok_components_are_tarjan. Qed.
 Print Assumptions C19_accepted_components_are_tarjan.
 
+(** "Dependency-ordered", transitively: everything reachable from a vertex of a component of the
+    coded Tarjan's output lies in that component or in an EARLIER one (the last clause of the
+    specification speaks of single edges; this lifts it to paths). *)
+Theorem C19_tarjan_dependencies_before :
+  forall g, closed g = true ->
+    exists cs, scc g = Some cs /\
+      forall l1 c l2 u v, cs = l1 ++ c :: l2 -> In u c -> path g u v -> In v c \/ In v (concat l1).
+Proof. exact tarjan_deps_before. Qed.
+Print Assumptions C19_tarjan_dependencies_before.
+
 (** Tarjan as coded, bounded (kept as an independent in-kernel cross-check of the model and
     the oracle): all 66 067 labelled digraphs on at most 4 vertices, and all
     insertion orders on 3 vertices (finite-domain proofs; bound in the name). *)
